@@ -186,11 +186,56 @@ F6 == {FileW(<<>>, <<>>, r) : r \in ScopeShapes(ProbeAll)}
                        <<Elem("v", <<Attr("plain", "p", EV(e)), Attr("class", "", MV(<<S("c"), P(e)>>))>>, <<>>)>>)>>) :
                        e \in Positions(n)} : n \in {"x", "y"} }
 
+
 -----------------------------------------------------------------------------
-Cases == CASE Family = "F1" -> F1 [] Family = "F2" -> F2 [] Family = "F3" -> F3 [] Family = "F4" -> F4
+(* F7: l-value shapes (C11): model: / event / change: / list bindings over member chains, dynamic
+   indices, for-items (nested), conditionals, script references, and every non-assignable form *)
+DL == VO(<< <<"a", VI(1)>>, <<"b", VS("p")>>, <<"i", VI(1)>>, <<"c", VB(FALSE)>>,
+            <<"o", VO(<< <<"p", VS("op")>>, <<"q", VO(<< <<"r", VS("oqr")>> >>)>> >>)>>,
+            <<"o2", VO(<< <<"p", VS("o2p")>> >>)>>,
+            <<"l", VA(<< VO(<< <<"v", VS("l0v")>>, <<"sub", VA(<<VS("s00"), VS("s01")>>)>> >>),
+                         VO(<< <<"v", VS("l1v")>>, <<"sub", VA(<<VS("s10")>>)>> >>) >>)>>,
+            <<"ol", VO(<< <<"k1", VS("v1")>>, <<"k2", VS("v2")>> >>)>> >>)
+DL2 == VO(<< <<"a", VI(0)>>, <<"b", VS("q")>>, <<"i", VI(0)>>, <<"c", VB(TRUE)>>,
+             <<"o", VO(<< <<"p", VS("op")>>, <<"q", VO(<< <<"r", VS("oqr")>> >>)>> >>)>>,
+             <<"o2", VO(<< <<"p", VS("o2p")>> >>)>>,
+             <<"l", VA(<< VO(<< <<"v", VS("l0v")>>, <<"sub", VA(<<VS("s00")>>)>> >>) >>)>>,
+             <<"ol", VO(<< <<"k1", VS("v1")>> >>)>> >>)
+LOk == {Id("a"), Mem(Id("o"), "p"), Mem(Mem(Id("o"), "q"), "r"), Idx(Id("l"), Lit("0")), Mem(Idx(Id("l"), Id("i")), "v"),
+        Idx(Id("o"), Id("b")), Idx(Id("o"), Lit("'p'")), Cond(Id("c"), Mem(Id("o"), "p"), Mem(Id("o2"), "p")),
+        Mem(Cond(Id("c"), Id("o"), Id("o2")), "p"), Idx(Mem(Idx(Id("l"), Lit("0")), "sub"), Id("i")),
+        Cond(Id("c"), Id("a"), Bin("+", Id("a"), Lit("1"))), Cond(Id("c"), Lit("1"), Mem(Id("o"), "p"))}
+LBad == {Bin("+", Id("a"), Lit("1")), Un("!", Id("a")), Lit("'x'"), Lit("1"), Call(Id("f"), <<Id("a")>>),
+         Idx(Arr(<<Item(Id("a"))>>), Lit("0")), Mem(Obj(<<Named("p", Id("a"))>>), "p"), Bin("||", Id("a"), Id("b")),
+         Arr(<<Item(Id("a"))>>), Obj(<<Named("p", Id("a"))>>)}
+LAll == LOk \cup LBad
+WxsIn  == [n |-> "m", members |-> << <<"f", VF("f2")>>, <<"g", VO(<< <<"h", VF("f1")>> >>)>>, <<"list", VA(<< VO(<< <<"f", VF("f2")>> >>) >>)>> >>]
+WxsExt == [n |-> "x", src |-> "s", members |-> << <<"f", VF("f2")>>, <<"g", VO(<< <<"h", VF("f1")>> >>)>> >>]
+SExprs == {Mem(Id("m"), "f"), Mem(Mem(Id("m"), "g"), "h"), Mem(Id("x"), "f"), Mem(Mem(Id("x"), "g"), "h"), Id("m"),
+           Cond(Id("c"), Mem(Id("m"), "f"), Mem(Id("x"), "f")), Cond(Id("c"), Mem(Id("m"), "f"), Id("a")),
+           Idx(Id("m"), Id("b")), Call(Mem(Id("m"), "f"), <<Id("a")>>)}
+FileS(root) == << [path |-> "a", imports |-> <<>>, wxs |-> <<WxsIn, WxsExt>>, defs |-> <<>>, root |-> root] >>
+F7 ==    {FileS(<<Elem("v", <<Attr("model:", "v", EV(e))>>, <<>>)>>) : e \in LAll \cup SExprs}
+    \cup {FileS(<<Elem("v", <<Attr(f, "tap", EV(e))>>, <<>>)>>) : f \in {"bind", "catch", "capture-bind"}, e \in SExprs \cup LOk}
+    \cup {FileS(<<Elem("v", <<Attr("change:", "p", EV(e))>>, <<>>)>>) : e \in SExprs \cup {Id("a"), Mem(Id("o"), "p")}}
+    \cup {FileS(<<Elem("v", <<Attr("plain", n, EV(e))>>, <<>>)>>) : n \in {"bindtap", "catchtap", "ontap", "capture-bindtap", "p"},
+                                                                    e \in SExprs \cup {Id("a")}}
+    \cup {FileS(<<SlotEl(None, <<Attr("plain", n, EV(e))>>)>>) : n \in {"bindtap", "p"}, e \in {Mem(Id("m"), "f"), Mem(Id("x"), "f"), Id("a")}}
+    \cup {FileS(<<For(EV(l), "item", "index", "", <<Elem("v", <<Attr("model:", "v", EV(e))>>, <<>>)>>)>>) :
+             l \in {Id("l"), Id("ol"), Mem(Id("o"), "q"), Arr(<<Item(Id("a")), Item(Id("b"))>>), Cond(Id("c"), Id("l"), Id("ol")),
+                    Mem(Idx(Id("l"), Lit("0")), "sub"), Bin("||", Id("l"), Id("ol")), Call(Id("f"), <<Id("l")>>)},
+             e \in {Id("item"), Mem(Id("item"), "v"), Id("index"), Idx(Id("item"), Lit("'v'")), Id("a"), Bin("+", Id("item"), Lit("1"))}}
+    \cup {FileS(<<For(EV(Id("l")), "x", "y", "", <<For(EV(Mem(Id("x"), "sub")), "item", "index", "",
+                    <<Elem("v", <<Attr("model:", "v", EV(e))>>, <<>>)>>)>>)>>) :
+             e \in {Id("item"), Id("x"), Mem(Id("x"), "v"), Id("index"), Id("y")}}
+    \cup {FileS(<<For(EV(l), "item", "index", "", <<Elem("v", <<Attr(f, "tap", EV(e))>>, <<>>)>>)>>) :
+             l \in {Mem(Id("m"), "list"), Id("l")}, f \in {"bind"}, e \in {Mem(Id("item"), "f"), Id("item"), Mem(Id("m"), "f")}}
+
+-----------------------------------------------------------------------------
+Cases == CASE Family = "F7" -> F7 [] Family = "F1" -> F1 [] Family = "F2" -> F2 [] Family = "F3" -> F3 [] Family = "F4" -> F4
            [] Family = "F5" -> F5 [] Family = "F6" -> F6
 
-DataPool == IF Family = "F6" THEN {DS} ELSE Datas
+DataPool == IF Family = "F6" THEN {DS} ELSE IF Family = "F7" THEN {DL, DL2} ELSE Datas
 
 Init == files \in Cases /\ data \in DataPool
 Next == UNCHANGED vars
@@ -217,5 +262,19 @@ BlockInsensitive ==
         g2 == [p \in {"a"} |-> [f EXCEPT !.root = <<Block(f.root)>>]]
     IN Len(files) = 1 => RenderFile(g2, "a", data) = Tree
 
-Emit == PrintT(<<"CASE", ToJson([files |-> files, data |-> data, tree |-> Tree])>>)
+(* C11: get-put on the specification: writing w at LPath(e) and reading e again yields w *)
+Sentinel == VS("SENTINEL")
+RECURSIVE GetPutAttrs(_, _, _), GetPutNodes(_, _)
+GetPutOf(v, env) ==
+    LET lp == ValueLP(v, env) IN
+    (lp.ok /\ lp.root = "data") =>
+        LET d2 == SetAt(env.data, lp.keys, 1, Sentinel)
+        IN Eval(v.e, [env EXCEPT !.data = d2]) = Sentinel
+GetPutAttrs(at, i, env) == i > Len(at) \/ (GetPutOf(at[i].v, env) /\ GetPutAttrs(at, i + 1, env))
+GetPutNodes(ns, env) == \A i \in 1..Len(ns) :
+    ns[i].t = "elem" => GetPutAttrs(ns[i].at, 1, env)
+GetPut == Family = "F7" => GetPutNodes(files[1].root, Env0(Group, "a", data))
+
+Emit == PrintT(<<"CASE", ToJson([files |-> files, data |-> data,
+                                  tree |-> IF Family = "F7" THEN RenderFileMarked(Group, "a", data) ELSE Tree])>>)
 =============================================================================
